@@ -50,6 +50,19 @@ func (r *CopyReader) Read() error {
 reader:
 	for {
 		typed, _, err := r.ReadTypedMsg()
+		if errors.Is(err, buffer.ErrMessageSizeExceeded) {
+			// NOTE: the oversized message is skipped in order to keep the
+			// connection in sync, the copy operation is aborted with the
+			// returned error.
+			if exceeded, has := buffer.UnwrapMessageSizeExceeded(err); has {
+				if serr := r.Slurp(exceeded.Size); serr != nil {
+					return serr
+				}
+			}
+
+			return err
+		}
+
 		if err != nil {
 			return err
 		}
